@@ -1,2 +1,3 @@
 import Dalek.Props.C04.Recode
 import Dalek.Props.C04.Algorithms
+import Dalek.Props.C05.CfgGated
